@@ -55,6 +55,9 @@ TABLE = {
     "C12": (MC, "2,4-C12",
             "exhaustive enumeration of the whole (size, capacity) space of narrow-size_type containers (W3) x every growing operation x counts and range lengths up to and beyond max_size(), against std::vector + a length_error oracle; ledger checks allocate(n) <= max_size(), red zones / ASan for overruns",
             "8-bit size_type: all 8256 (size,capacity) states; counts/lengths: boundary set (quick) or every value 0..255 / 0..300 (thorough); 16/32/64-bit size_type with small allocator max_size(): complete; true 16-bit limit at boundary states; NDEBUG and assert-enabled builds."),
+    "C13": (MC, "2,3,4-C13",
+            "(1) twin differential: the complete W1 trace (explicit-state BFS, allocation faults) of trivially copyable element types must equal record-for-record that of the instrumented non-trivial twin; (2) complete conversion grid (To x From x source kind x operation x value set) against static_cast; (3) archetype grid, trivial vs non-trivial twin, differential",
+            "(1) same state graph explored for Triv/int and TokNM, ordered digests compared, first differing record reported; trivial worlds also run under ASan with canaries/red zones and full fault injection. (2) 234 (To,From) cells incl. pointer pairs with base-offset adjustment, every source iterator kind, 8 operations, all 8-bit values / boundary sets, under C++17 and C++20 (a cell that does not compile is a violation). (3) 22 (operation, minimal archetype) cases."),
     "C14": (MC, "2,4-C14",
             "explicit-state BFS (W1) + exhaustive narrow-size_type space (W3, incl. saturation at max_size()): growth factor checked on every reallocating transition; plus prefix-closed long runs (2^22 appends) from a grid of start shapes counting allocations and relocations",
             "Every reallocating edge of the bounded graphs satisfies cap' >= required and (cap' >= 1.5 cap or cap' == max_size()); long single-operation runs from 5178 start shapes check O(log n) allocations and O(n) relocations for N in {0,1,2,5,40}."),
@@ -70,7 +73,7 @@ TABLE = {
 }
 
 ENGINE_OF = {p: "svmc" for p in TABLE}
-ENGINE_OF.update({"C16": "tables+svmc", "C19": "grid", "C18": "grid+svmc"})
+ENGINE_OF.update({"C16": "tables+svmc", "C19": "grid", "C18": "grid+svmc", "C13": "svmc+grid"})
 
 
 def main():
